@@ -343,6 +343,28 @@ def _crossbeam_send(ctx, fx, k, body, dg):
         r = strip_casts(dg.expr(moe[0][1]["args"][0]))
         alts = r[3] if r[0] == "phi" and len(r) > 3 else (r,)
         ok = all(strip_casts(a)[0] == "call" and strip_casts(a)[1].endswith("::try_send") for a in alts)
+    if not moe:
+        # explicit `match try_send(item) { Ok(()) => Ok{..}, Err(Full(x)) => Transient{x}, Err(Disconnected(x)) => Fatal{x} }`: the same mapping, spelled as a match
+        ts_ = [(b, c) for (b, c) in body.calls if c.get("fname") == "try_send" and not c["dst"]["p"]]
+        if len(ts_) == 1:
+            edges = util.option_test_edges(body, dg, ts_[0][1]["dst"]["l"])
+            vs_ = verdicts(body)
+            if edges and vs_:
+                (tb, ok_t, err_t) = edges[0]
+                R_ok = body.reach_from(ok_t) | {ok_t}; R_err = body.reach_from(err_t) | {err_t}
+                good = ok_t != err_t
+                for (vb, variant, fields, ops) in vs_:
+                    on_ok = vb in R_ok and vb not in R_err; on_err = vb in R_err and vb not in R_ok
+                    if variant == "Ok": good = good and on_ok
+                    elif variant in ("Transient", "Fatal"):
+                        good = good and on_err
+                        if "input" in fields:
+                            inp = dg.expr(ops[fields.index("input")])
+                            back = _mentions(inp, lambda x: x[0] == "call" and x[1].endswith("::try_send"))
+                            ctx.ob("R01.3", f"{k}|rejected-input-handed-back|{variant}", back, body.loc(vb), f"{variant} carries `{show(inp)[:80]}`; required: the item crossbeam handed back")
+                    else: good = False
+                ctx.ob("R01.2", f"{k}|verdict-from-try_send", good and {v for (_, v, _, _) in vs_} >= {"Ok", "Transient"}, site, "the verdict is matched from try_send's own answer: Ok on its Ok edge, Transient / Fatal on its Err edge")
+                return
     ctx.ob("R01.2", f"{k}|verdict-from-try_send", ok, site, "the verdict is derived from try_send's own answer")
     if not ok: return
     c = moe[0][1]
